@@ -2270,6 +2270,8 @@ import (
 	"sync/atomic"
 	"testing"
 	"time"
+
+	"github.com/iotaledger/hive.go/runtime/options"
 )
 
 // oracle: (1) group aggregation - a group's PendingChildrenCounter is the number of its direct children (pools
@@ -2330,6 +2332,33 @@ func TestVerifReplay(t *testing.T) {
 		}
 		w.Shutdown()
 		w.ShutdownComplete.Wait()
+	}
+	// (4) pools of a group: cancel-on-shutdown is the default, an explicit option of the caller wins over it
+	for _, explicit := range []int{-1, 0, 1} { // none, false, true
+		g := NewGroup("g")
+		opts := []options.Option[WorkerPool]{WithWorkerCount(1)}
+		if explicit >= 0 {
+			opts = append(opts, WithCancelPendingTasksOnShutdown(explicit == 1))
+		}
+		gp := g.CreatePool("p", opts...)
+		hold := make(chan struct{})
+		busy := make(chan struct{})
+		gp.Submit(func() { close(busy); <-hold })
+		<-busy
+		var ranBacklog atomic.Int64
+		for i := 0; i < 5; i++ {
+			gp.Submit(func() { ranBacklog.Add(1) })
+		}
+		time.Sleep(50 * time.Millisecond) // the dispatcher has handed the first backlog tasks to the dispatch channel
+		gp.Shutdown()
+		close(hold)
+		gp.ShutdownComplete.Wait()
+		if explicit == 0 && ranBacklog.Load() != 5 {
+			t.Fatalf("REPLAY-VIOLATION a group pool created with WithCancelPendingTasksOnShutdown(false) ran %d of its 5 queued tasks at shutdown (the caller's option was overridden by the group's default)", ranBacklog.Load())
+		}
+		if explicit != 0 && ranBacklog.Load() == 5 {
+			t.Fatalf("REPLAY-VIOLATION a group pool that cancels pending tasks on shutdown (explicit option: %d) ran all 5 queued tasks behind a blocked worker", explicit)
+		}
 	}
 RACE_SCENARIO
 }
